@@ -6,6 +6,7 @@ import OrsoVerif.Lemmas.DictJson
 import OrsoVerif.Model.DictIter
 import OrsoVerif.Model.DictClass
 import OrsoVerif.Model.DictKinds
+import OrsoVerif.Model.DictKeyed
 /-!
 # C02 — Dictionary records map onto rows by field name
 
@@ -1074,5 +1075,88 @@ theorem records_read_when_handed_over {δ : Type} (steps : List (Nat × δ)) :
 /-- the failure mode: the iterable run to its end first — two records handed over in one refilled buffer are both read as
 the last one -/
 example : DictKinds.readRecords false [(0, "ada"), (0, "bob"), (1, "cy"), (0, "dee")] = ["dee", "dee", "cy", "dee"] := by decide
+
+
+/-! ## Seventh pass: records whose keys are not plain text (Model/DictKeyed.lean on C10's `PyDict` keys) -/
+
+section Keyed
+open PyDictM DictKeyed
+
+/-- a dictionary finds every one of its own items again under that item's key (keys pairwise different) -/
+theorem lookupId_own {β : Type} : ∀ (l : List (PyKey × β)), (l.map fun kv => kv.1.id).Nodup →
+    ∀ kv ∈ l, lookupId kv.1.id l = some kv.2
+  | [], _, kv, h => by simp at h
+  | (k, v) :: rest, hn, kv, h => by
+    simp only [List.map_cons, List.nodup_cons] at hn
+    rcases List.mem_cons.mp h with rfl | h'
+    · simp [lookupId]
+    · have hne : k.id ≠ kv.1.id := by
+        intro e; apply hn.1; rw [e]; exact List.mem_map.mpr ⟨kv, h', rfl⟩
+      simp only [lookupId, hne, if_false]
+      exact lookupId_own rest hn.2 kv h'
+
+/-- "a DataFrame built from dictionaries takes its columns from the first dictionary … puts each field's value at that
+field's position", for keys of ANY kind (numbers, dates, tuples, str-Enum members, `str` subclasses with their own
+`__str__` — whatever `str(key)` prints): position `i` of the row of record `d` is what `d` holds under the first
+dictionary's `i`-th KEY, null when it holds nothing under it; the row is as wide as the column list.  Stated of the
+lookup the source does (`frameLookupKeysAreFirstKeys`, regenerated from `DataFrame.__init__` on every run: `false` when
+the record itself is handed to the row factory, which probes with the texts `str(key)`). -/
+theorem frame_row_by_first_keys {β : Type} (null : β) (first d : List (PyKey × β)) :
+    (frameCells null first d).length = (frameNames first).length
+    ∧ ∀ i : Nat, (frameCells null first d)[i]? = (first[i]?).map fun kv => (lookupId kv.1.id d).getD null := by
+  refine ⟨by simp [frameCells, frameNames], ?_⟩
+  intro i
+  simp [frameCells, frameCell, frameLookupKeysAreFirstKeys, getKey]
+
+/-- the first dictionary's own row holds its values, in its order — whatever its keys are -/
+theorem frame_first_row_keyed {β : Type} (null : β) (first : List (PyKey × β))
+    (hn : (first.map fun kv => kv.1.id).Nodup) :
+    frameCells null first first = first.map fun kv => kv.2 := by
+  simp only [frameCells]
+  apply List.map_congr_left
+  intro kv h
+  simp [frameCell, frameLookupKeysAreFirstKeys, getKey, lookupId_own first hn kv h]
+
+/-- the lookup by text would lose the value of the key `1` (`str(1) = "1"` is no key of `{1: 7}`) and of a str-Enum
+member (`Col.ID == "id"`, `str(Col.ID) = "Col.ID"`), while the lookup by key object keeps them -/
+example : (getText 0 ⟨.other 1, false, false, "1"⟩ [(⟨.other 1, false, false, "1"⟩, 7)],
+           getText 0 ⟨.text "id", false, true, "Col.ID"⟩ [(⟨.text "id", false, true, "Col.ID"⟩, 7)],
+           frameCells 0 [((⟨.other 1, false, false, "1"⟩ : PyKey), 7), (⟨.text "id", false, true, "Col.ID"⟩, 8)]
+             [((⟨.text "id", false, true, "Col.ID"⟩ : PyKey), 2), (⟨.other 1, false, false, "1"⟩, 1)])
+    = (0, 0, [1, 2]) := by decide
+
+/-! ## Seventh pass: the JSON view names the value the row holds — the fraction of a second -/
+
+theorem val_digit : ∀ d : Nat, d < 10 → val (digit d) = some d := by
+  intro d h
+  have : d = 0 ∨ d = 1 ∨ d = 2 ∨ d = 3 ∨ d = 4 ∨ d = 5 ∨ d = 6 ∨ d = 7 ∨ d = 8 ∨ d = 9 := by omega
+  rcases this with rfl | rfl | rfl | rfl | rfl | rfl | rfl | rfl | rfl | rfl <;> decide
+
+/-- "the JSON view reproduces exactly that field-to-value association", for the microseconds of a date-time / time of
+day: under the `option=` flags the `orjson.dumps` call of `as_json` has in the working tree (`asJsonOptions`, regenerated
+on every run) the fraction written after the seconds reads back as exactly the value's microseconds, for every one of
+the 10^6 values. -/
+theorem asJson_fraction_roundtrip (us : Nat) (h : us < 1000000) :
+    readFrac (frac asJsonOptions us) = some us := by
+  have ho : asJsonOptions.contains "OPT_OMIT_MICROSECONDS" = false := by decide
+  unfold frac
+  rw [ho]
+  by_cases h0 : us = 0
+  · subst h0; simp [readFrac]
+  · simp only [h0, Bool.false_eq_true, or_self, if_false]
+    simp only [readFrac, six, List.length_cons, List.length_nil, digitsVal,
+      val_digit _ (Nat.mod_lt _ (by decide : 10 > 0))]
+    simp [padVal, List.foldl]
+    omega
+
+/-- no flag of the call is one that makes the text name another value (`OPT_OMIT_MICROSECONDS`, `OPT_NAIVE_UTC`) -/
+theorem asJson_no_lossy_flag : ∀ o ∈ asJsonOptions, o ∉ lossyFlags := by decide
+
+/-- with `OPT_OMIT_MICROSECONDS` the text of 23:59:59.999999 reads back as 23:59:59; and five digits for 071265
+microseconds (what the installed orjson writes for a time of day, open finding C02-K01) read as 712650 -/
+example : (readFrac (frac ["OPT_OMIT_MICROSECONDS"] 999999), readFrac (frac [] 999999), readFrac ".71265".toList, readFrac (frac [] 71265))
+    = (some 0, some 999999, some 712650, some 71265) := by decide
+
+end Keyed
 
 end C02
